@@ -190,6 +190,39 @@ pub fn session_case(ctx: &mut Ctx, frames: &[Vec<u8>], msgs: &[M], label: &str) 
     }
 }
 
+/// a long backlog delivered in very large binary messages (a relay that coalesces everything it has): `nframes` four-byte
+/// packets cut into messages of `msgsize` bytes — every packet arrives, in order, whatever the message size
+pub fn big_message_case(ctx: &mut Ctx, nframes: usize, msgsize: usize) {
+    ctx.oracle_eval("big-message");
+    let input = format!("ws.bigmsg {} {}", nframes, msgsize);
+    let stream: Vec<u8> = (0..nframes).flat_map(|i| vec![4u8, 3, 1 + (i % 250) as u8, 3]).collect();
+    let msgs: Vec<M> = stream.chunks(msgsize.max(1)).map(|c| M::B(c.to_vec())).collect();
+    let got = guard(std::panic::AssertUnwindSafe(move || {
+        rt().block_on(async move {
+            let (addr, h) = serve(msgs, true).await;
+            let c = client(addr).await;
+            let mut f = insim::net::tokio_impl::Framed::new(Box::new(c), Codec::new(mode_of(false)));
+            let mut n = 0usize;
+            let mut end = String::new();
+            loop {
+                match tokio::time::timeout(Duration::from_millis(1500), f.read()).await {
+                    Ok(Ok(insim::Packet::Tiny(t))) if t.reqi.0 == 1 + (n % 250) as u8 => n += 1,
+                    Ok(Ok(p)) => { end = format!("unexpected packet {}", cls_token(&p)); break; },
+                    Ok(Err(e)) => { end = err_token(&e, false); break; },
+                    Err(_) => { end = "stalled".into(); break; },
+                }
+            }
+            drop(f);
+            let _ = h.await;
+            (n, end)
+        })
+    }));
+    match got {
+        Some((n, end)) if n == nframes && end == "err disconnected" => {},
+        other => ctx.violation("c20/session/big-message", "a backlog delivered in very large binary messages did not arrive as its packets, in order, followed by the closure", &input, &format!("{} packets then err disconnected", nframes), &format!("{:?}", other)),
+    }
+}
+
 pub fn write_case(ctx: &mut Ctx, frames: &[Vec<u8>]) { write_case_m(ctx, false, frames) }
 
 /// … in either size mode (the adaptor carries whatever frames the codec produces: up to 1020 bytes in compressed mode)
@@ -327,6 +360,7 @@ pub fn run(ctx: &mut Ctx) {
                 },
                 ["ws.write", frames] => write_case(ctx, &frames.split('+').map(unhex).collect::<Vec<_>>()),
                 ["ws.writec", frames] => write_case_m(ctx, true, &frames.split('+').map(unhex).collect::<Vec<_>>()),
+                ["ws.bigmsg", n, m] => big_message_case(ctx, n.parse().unwrap_or(20000), m.parse().unwrap_or(65536)),
                 ["ws.backpressure", n] => backpressure_case(ctx, n.parse().unwrap_or(3000)),
                 _ => {},
             }
@@ -420,4 +454,7 @@ pub fn run(ctx: &mut Ctx) {
     }
     for b in big_frames(false) { write_case_m(ctx, false, &[b.clone()]); }
     backpressure_case(ctx, if quick { 3000 } else { 20000 });
+    for m in [65535usize, 65536, 80000] { big_message_case(ctx, 20000, m); }
+    if !quick { for m in [1021usize, 4096, 16384, 32768, 65537, 131072, 400000] { big_message_case(ctx, 100000, m); } }
+    ctx.exhaustive_domains.push("a backlog of 20000 packets delivered in binary messages of 65535, 65536 and 80000 bytes".into());
 }
